@@ -191,8 +191,11 @@ pub enum CS {
     GeneratedVirtual,
     Extra,
     Comment,
+    /// a second CHECK and a second raw fragment: specifications of one kind may occur more than once
+    Check2,
+    Extra2,
 }
-pub const ALL_SPECS: [CS; 12] = [CS::Null, CS::NotNull, CS::DefaultInt, CS::DefaultStr, CS::AutoIncrement, CS::UniqueKey, CS::PrimaryKey, CS::Check, CS::GeneratedStored, CS::GeneratedVirtual, CS::Extra, CS::Comment];
+pub const ALL_SPECS: [CS; 14] = [CS::Null, CS::NotNull, CS::DefaultInt, CS::DefaultStr, CS::AutoIncrement, CS::UniqueKey, CS::PrimaryKey, CS::Check, CS::GeneratedStored, CS::GeneratedVirtual, CS::Extra, CS::Comment, CS::Check2, CS::Extra2];
 
 fn apply_spec(c: &mut ColumnDef, s: CS) {
     match s {
@@ -208,6 +211,8 @@ fn apply_spec(c: &mut ColumnDef, s: CS) {
         CS::GeneratedVirtual => c.generated(Expr::col(a("k")).add(1), false),
         CS::Extra => c.extra("COLLATE NOCASE"),
         CS::Comment => c.comment("a comment"),
+        CS::Check2 => c.check(Expr::col(a("c")).ne(0)),
+        CS::Extra2 => c.extra("CONSTRAINT \"cx\" CHECK (\"c\" <> -1)"),
     };
 }
 
@@ -225,6 +230,8 @@ fn ref_spec(s: CS) -> &'static str {
         CS::GeneratedVirtual => "GENERATED ALWAYS AS (\"k\" + 1) VIRTUAL",
         CS::Extra => "COLLATE NOCASE",
         CS::Comment => "",
+        CS::Check2 => "CHECK (\"c\" <> 0)",
+        CS::Extra2 => "CONSTRAINT \"cx\" CHECK (\"c\" <> -1)",
     }
 }
 
@@ -454,6 +461,54 @@ fn act_sql(x: ForeignKeyAction) -> &'static str {
         ForeignKeyAction::NoAction => "NO ACTION",
         ForeignKeyAction::SetDefault => "SET DEFAULT",
     }
+}
+
+/// a composite foreign key spelled call by call: `order` is a permutation of the six calls from_tbl, from_col(a),
+/// from_col(b), to_tbl, to_col(id), to_col(id2) (0..6) that keeps each column list in its order
+fn check_fk_call_order(order: &[u8]) -> Result<bool, (String, String)> {
+    let sut = catch(|| {
+        let mut f = ForeignKey::create();
+        f.name("fkc");
+        for c in order {
+            match c {
+                0 => f.from_tbl(a("t")),
+                1 => f.from_col(a("a")),
+                2 => f.from_col(a("b")),
+                3 => f.to_tbl(a("p")),
+                4 => f.to_col(a("id")),
+                _ => f.to_col(a("id2")),
+            };
+        }
+        f.on_delete(ForeignKeyAction::Cascade);
+        let mut s = Table::create();
+        s.table(a("t")).col(ColumnDef::new(a("k")).integer()).col(ColumnDef::new(a("a")).integer()).col(ColumnDef::new(a("b")).integer()).foreign_key(&mut f);
+        s.to_string(SqliteQueryBuilder)
+    });
+    let r = "CREATE TABLE \"t\" ( \"k\" INTEGER, \"a\" INTEGER, \"b\" INTEGER, CONSTRAINT \"fkc\" FOREIGN KEY (\"a\", \"b\") REFERENCES \"p\" (\"id\", \"id2\") ON DELETE CASCADE )";
+    let (d1, d2) = fresh_pair("CREATE TABLE p (id INTEGER, id2 INTEGER, PRIMARY KEY (id, id2)); INSERT INTO p VALUES (7, 7), (13, 13), (0, 0);");
+    step_pair(&d1, &d2, &sut, r, true)
+}
+
+fn fk_call_orders() -> Vec<Vec<u8>> {
+    fn rec(cur: &mut Vec<u8>, used: &mut [bool; 6], out: &mut Vec<Vec<u8>>) {
+        if cur.len() == 6 {
+            out.push(cur.clone());
+            return;
+        }
+        for c in 0..6u8 {
+            if used[c as usize] || (c == 2 && !used[1]) || (c == 5 && !used[4]) {
+                continue;
+            }
+            used[c as usize] = true;
+            cur.push(c);
+            rec(cur, used, out);
+            cur.pop();
+            used[c as usize] = false;
+        }
+    }
+    let mut out = vec![];
+    rec(&mut vec![], &mut [false; 6], &mut out);
+    out
 }
 
 fn check_table(t: &TableS) -> Result<bool, (String, String)> {
@@ -726,6 +781,14 @@ pub fn run(rep: &Arc<Report>) {
             record("table", &sig, format!("{:?}", t), format!("table {:?}: {}", t, det), json!({"kind": "table", "spec": format!("{:?}", t), "pk": t.pk, "uq": t.uq, "check": t.check, "if_not_exists": t.if_not_exists, "fk2": t.fk2, "shared": t.shared, "fk": t.fk.map(|(a, b)| (a.map(|x| act_sql(x)), b.map(|x| act_sql(x))))}));
         }
     });
+    // (2b) the foreign-key builder spelled call by call, in every order of its calls
+    let orders = fk_call_orders();
+    par_items(&orders, |_w, o| {
+        if let Err((sig, det)) = check_fk_call_order(o) {
+            record("fk-call-order", &sig, format!("{:?}", o), format!("foreign key built by the calls {:?} (0 from_tbl, 1 from_col a, 2 from_col b, 3 to_tbl, 4 to_col id, 5 to_col id2): {}", o, det), json!({"kind": "fk-call-order", "order": o}));
+        }
+    });
+    rep.set("foreign_key_call_orders", json!(orders.len()));
     // (3)
     let depth = if rep.thorough() { 4 } else { 3 };
     let mut seqs: Vec<Vec<SOp>> = vec![vec![]];
@@ -798,6 +861,10 @@ pub fn replay(case: &serde_json::Value) -> Option<String> {
             let ct = all_types().into_iter().find(|c| format!("{:?}", c) == case["type"].as_str().unwrap_or(""))?;
             let specs: Vec<CS> = case["specs"].as_array()?.iter().filter_map(|s| s.as_str().and_then(parse_cs)).collect();
             check_column(&ct, &specs).err().map(|(sig, det)| format!("column {:?} {:?}: [{sig}] {det}", ct, specs))
+        }
+        "fk-call-order" => {
+            let o: Vec<u8> = case["order"].as_array()?.iter().map(|x| x.as_u64().unwrap_or(0) as u8).collect();
+            check_fk_call_order(&o).err().map(|(sig, det)| format!("fk call order {:?}: [{sig}] {det}", o))
         }
         "sequence" => {
             let ops: Vec<SOp> = case["ops"].as_array()?.iter().filter_map(|s| s.as_str().and_then(|s| SOPS.iter().copied().find(|o| format!("{:?}", o) == s))).collect();
